@@ -24,7 +24,9 @@ RULE += (
     " Further configurations per key: the body calls dirty() for its OWN key before it blocks (whoever asks "
     "afterwards gets a new execution); the body yields its item together with a task it created, which asks "
     "for the same call - at once or after a flush - while the body is suspended and must be handed the "
-    "in-flight task."
+    "in-flight task. A separate unit applies ONE deduplicate() object to four functions with different "
+    "signatures in all 24 decoration orders: equivalent spellings share a task, look-alike different calls do "
+    "not."
 )
 ASSUMPTIONS = [
     "calls issued while the in-flight task's own step is on the Python stack are unconstrained by the statement and leave the model unchanged",
